@@ -359,5 +359,11 @@ def replay_write_port(fn, via, cls, is128):
         o = vals.get('tracer_out7ffd', 0) & 255
         outfffd = vals.get('outfffd', 0) & 255
         d = concrete_write_port(fn, via, cls, is128, port, value, o, outfffd)
+        if not d:
+            # the solver leaves variables the failing obligation does not mention at 0: try other written values too
+            for value in ((o ^ 0x10) & 255, 0x17, 0xFF, 0):
+                d = concrete_write_port(fn, via, cls, is128, port, value, o, outfffd)
+                if d:
+                    break
         return {'case': {'port': port, 'value': value, 'out7ffd': o, 'outfffd': outfffd, 'is128': is128}, 'diffs': d}
     return rp
